@@ -820,36 +820,44 @@ func runBatch(b *Batch, solvers []string, capSec int, workers int) {
 	for _, v := range b.ModelVars {
 		mvNames = append(mvNames, smtVarName(v.s))
 	}
-	var wg sync.WaitGroup
 	var mu sync.Mutex
-	for _, jb := range jobs {
-		for _, sk := range solvers {
-			wg.Add(1)
-			go func(jb job, sk string) {
-				defer wg.Done()
-				qs := jb.qs
-				if jb.propositional {
-					qs = make([]string, len(jb.qs))
-					for i, q := range jb.qs {
-						if sk == "z3new" || sk == "z3" {
-							// pure Bool / bit-vector query: bit-blast and hand it to the SAT core
-							qs[i] = strings.Replace(q, "<<CHECK>>", "(check-sat-using (try-for (then simplify bit-blast sat) <<MS>>))", 1)
-						} else {
-							qs[i] = strings.Replace(q, "<<CHECK>>", "(check-sat)", 1)
+	runPhase := func(sks []string) {
+		var wg sync.WaitGroup
+		for _, jb := range jobs {
+			for _, sk := range sks {
+				wg.Add(1)
+				go func(jb job, sk string) {
+					defer wg.Done()
+					qs := jb.qs
+					if jb.propositional {
+						qs = make([]string, len(jb.qs))
+						for i, q := range jb.qs {
+							if sk == "z3new" || sk == "z3" {
+								// pure Bool / bit-vector query: bit-blast and hand it to the SAT core
+								qs[i] = strings.Replace(q, "<<CHECK>>", "(check-sat-using (try-for (then simplify bit-blast sat) <<MS>>))", 1)
+							} else {
+								qs[i] = strings.Replace(q, "<<CHECK>>", "(check-sat)", 1)
+							}
 						}
 					}
-				}
-				prelude := jb.prelude
-				if jb.propositional && (sk == "z3new" || sk == "z3") {
-					// z3 expands define-fun macros when a formula is asserted, which is pathologically slow on
-					// heavily shared DAGs; give it definitional constraints instead
-					prelude = defRe.ReplaceAllString(prelude, "(declare-const $1 $2)\n(assert (= $1 $3))")
-				}
-				runJob(prelude, jb.obls, qs, sk, capSec, mvNames, &mu)
-			}(jb, sk)
+					prelude := jb.prelude
+					if jb.propositional && (sk == "z3new" || sk == "z3") {
+						// z3 expands define-fun macros when a formula is asserted, which is pathologically slow on
+						// heavily shared DAGs; give it definitional constraints instead
+						prelude = defRe.ReplaceAllString(prelude, "(declare-const $1 $2)\n(assert (= $1 $3))")
+					}
+					runJob(prelude, jb.obls, qs, sk, capSec, mvNames, &mu)
+				}(jb, sk)
+			}
 		}
+		wg.Wait()
 	}
-	wg.Wait()
+	// phase 1: the primary solver decides; phase 2: the other solvers confirm, each obligation with a
+	// grace period proportional to the primary's time (full cap where the primary did not decide)
+	runPhase(solvers[:1])
+	if len(solvers) > 1 {
+		runPhase(solvers[1:])
+	}
 }
 
 func solverPrelude(kind string, capSec int) string {
